@@ -31,6 +31,9 @@ const realHost = "fetch.test"
 
 var realDir string
 
+// longURLs makes every URL of the family carry a 5000-byte query string.
+var longURLs bool
+
 // realBytes returns the bytes a source of the given failure kind delivers.
 func realBytes(pi, kind int) []byte {
 	switch kind {
@@ -57,6 +60,10 @@ func realName(s scenario, forms []int, i int) string {
 		n = fmt.Sprintf("b%03d", i-s.NSrc)
 	}
 	if forms[i] == formURL {
+		if longURLs {
+			// longer than any file name can be (stat answers "file name too long", not "no such file")
+			return "http://" + realHost + "/" + n + "?pad=" + strings.Repeat("x", 5000)
+		}
 		return "http://" + realHost + "/" + n
 	}
 	// one file per (profile, failure kind), written once before any exploration
@@ -124,7 +131,8 @@ func runReal(s scenario, forms []int, order []int) (observation, []string) {
 	for i := 0; i < m; i++ {
 		names[i] = realName(s, forms, i)
 		if forms[i] == formURL {
-			byPath[names[i][len("http://"+realHost+"/"):]] = i
+			path, _, _ := strings.Cut(names[i][len("http://"+realHost+"/"):], "?")
+			byPath[path] = i
 		}
 	}
 	f := &drive.Fetcher{Nil: map[string]bool{}}
@@ -213,6 +221,12 @@ func realFamily(c *vk.Ctx, idx *int64) {
 						return
 					}
 					exploreReal(c, scenario{NSrc: ns, NBase: nb, Fail: fp}, forms, urls)
+					if len(urls) > 0 {
+						// the same scenario with URLs too long to be file names: still URLs
+						longURLs = true
+						exploreReal(c, scenario{NSrc: ns, NBase: nb, Fail: fp}, forms, urls)
+						longURLs = false
+					}
 				}
 			}
 		}
@@ -226,6 +240,9 @@ func exploreReal(c *vk.Ctx, s scenario, forms, urls []int) {
 	var ref *observation
 	ps := perms(len(urls))
 	tag := s.String() + " forms="
+	if longURLs {
+		tag = s.String() + " long-urls forms="
+	}
 	for _, f := range forms {
 		tag += []string{"F", "U"}[f]
 	}
